@@ -108,7 +108,14 @@ def _real_measurement_case(case):
     m = m.with_dimensions('a', 'b') if case.get('arity', 1) == 2 else m.with_dimensions('a')
   if case['transform'] == 'wrap':
     m = m.with_transform(lambda v: [v, v])
-  if case.get('validator'):
+  if case.get('validator') == 'raise':
+    # a validator that raises for some values (comparing a str / None / list with a number): the measurement is FAIL
+    # and the assignment re-raises; the rendering must say FAIL as well
+    if case['dim']:
+      m = m.with_validator(lambda rows: all(r[-1] < 6 for r in rows))
+    else:
+      m = m.with_validator(lambda v: v < 6)
+  elif case.get('validator'):
     if case['dim']:
       m = m.with_validator(lambda rows: all(r[-1] == 5 or r[-1] == [5, 5] for r in rows))
     else:
@@ -128,7 +135,11 @@ def _real_measurement_case(case):
     api = state.test_api
     for op in case['ops']:
       if op[0] == 'S':
-        api.measurements['m'] = _pyval(op[1])
+        try:
+          api.measurements['m'] = _pyval(op[1])
+        except Exception:  # pylint: disable=broad-except
+          if case.get('validator') != 'raise':
+            raise
         ops_out.append(('S', op[1], mo.outcome.name))
       elif op[0] == 'D':
         coords = tuple(op[1]) if len(op[1]) != 1 else op[1][0]
@@ -136,7 +147,11 @@ def _real_measurement_case(case):
         ops_out.append(('D', op[1], op[2]))
       elif op[0] == 'V':
         if mo.measured_value.is_value_set:     # the framework only validates measurements that were set
-          mo.validate()
+          try:
+            mo.validate()
+          except Exception:  # pylint: disable=broad-except
+            if case.get('validator') != 'raise':
+              raise
           ops_out.append(('V', mo.outcome.name))
       elif op[0] == 'R':
         view = copy.deepcopy(ps.as_base_types()['measurements']['m'])
@@ -465,7 +480,7 @@ def gen_cases(rng, tier):
     r = rng.derive(i)
     dim = r.random() < 0.6
     cases.append({'kind': 'M', 'dim': dim, 'transform': r.choice(['id', 'wrap']), 'ops': rand_ops(r, dim, r.randint(1, 8)),
-                  'validator': r.random() < 0.5})
+                  'validator': r.choice([False, True, True, 'raise'])})
   for v in [5, NAN, {'k': INF}, [1, None], 'x'] + ([] if tier == 'quick' else pool):
     for allow_nan in (False, True):
       cases.append({'kind': 'R', 'value': _spec(v), 'allow_nan': allow_nan, 'fail_sub': bool(len(cases) % 2),
